@@ -410,6 +410,13 @@ def get_index(v, idx, ty=None):
         k = int(idx.const_value())
         if k in v.fields:
             return v.fields[k]
+    if isinstance(v, St) and v.adt == 'array' and not idx.is_const() and 0 < len(v.fields) <= 8 and all(isinstance(x, RF) for x in v.fields.values()):
+        # a small table of scalars read at a symbolic position: a chain of selections (an out-of-range position panics)
+        ks = sorted(v.fields)
+        out = v.fields[ks[-1]]
+        for k in reversed(ks[:-1]):
+            out = ite(b_cmp('==', idx, RF.const(k)), v.fields[k], out)
+        return out
     if isinstance(v, St) and v.adt == 'vecmodel':
         # symbolic vector with explicit updates: {'base':..., writes...}
         pass
@@ -1596,6 +1603,10 @@ def _rebuild_app(name, args):
         return nf.fn_min(args[0], args[1])
     if name == 'ite':
         return ite(args[0], args[1], args[2])
+    if name == 'rem' and len(args) == 2 and all(isinstance(a, RF) and a.is_const() for a in args):
+        a0, a1 = args[0].const_value(), args[1].const_value()
+        if a0.denominator == 1 and a1.denominator == 1 and a0 >= 0 and a1 > 0:
+            return RF.const(int(a0) % int(a1))
     return RF.atom(nf.app_atom(name, *args))
 
 
